@@ -274,7 +274,7 @@ def started(ctx, c):
     prop = prog.own_method(c, "started")
     r = astq.returns_of(prop)
     ctx.check(len(r) == 1 and astq.text(r[0].value) == "self._started", R, prop, r[0] if r else MISSING(prop.node),
-              "%s.started returns the flag unmodified" % c.name, "%s.started returns %s" % (c.name, astq.text(r[0].value) if r else None))
+              "%s.started returns the flag unmodified" % c.name, "%s.started returns %s" % (c.name, astq.text(r[0].value) if r else None), structural=True)
     # who may write
     writers = {}
     for g in c.methods.values():
